@@ -1,3 +1,4 @@
 import Cgm.Lemmas.AuditCmd
 import Cgm.Props.C16
+import Cgm.Props.C16b
 #audit_namespace Cg.C16
